@@ -335,6 +335,10 @@ func (s *Store[K, V]) GetWithSecodary(key K) (V, bool, error) {
 		// unregister before the shard lock is released: a Get that misses
 		// afterwards must ask the secondary cache again, not join this finished call
 		defer shard.vgroup.forget(key)
+		// after Close nothing is served any more, from either tier
+		if shard.closed {
+			return v, &NotFound{}
+		}
 		// a Set may have stored a newer value since this Get missed: the copy in
 		// the secondary cache is older than anything found in memory now
 		if e, ok := shard.get(key); ok {
